@@ -59,7 +59,17 @@ func (m *Map) Delete(key any) {
 // Range may be O(N) with the number of elements in the map even if f returns
 // false after a constant number of calls.
 func (m *Map) Range(f func(key, value any) bool) {
+	// A key that f (or a goroutine running while f is suspended) deletes and stores again is a new map entry,
+	// which a range statement may produce once more: keep track of the keys that were visited.
+	var visited map[any]struct{}
 	for k, v := range m.m {
+		if _, seen := visited[k]; seen {
+			continue
+		}
+		if visited == nil {
+			visited = make(map[any]struct{})
+		}
+		visited[k] = struct{}{}
 		if !f(k, v) {
 			break
 		}
